@@ -144,6 +144,7 @@ func vfC16CheckUMap[V comparable](m *UInt64Map[V], model map[uint64]V) error {
 func TestVerifC16UMap(t *testing.T) {
 	vfC16Init()
 	defer vfstat.Flush()
+	vfstat.Quiet()
 	const U = "C16.umap"
 	rapid.Check(t, func(rt *rapid.T) {
 		capHint := rapid.SampledFrom([]int{0, 0, 1, 8, 9, 12, 20}).Draw(rt, "cap")
@@ -459,6 +460,7 @@ func vfC16CheckSeg[V comparable](m *SegmentUInt64Map[V], model map[uint64]V) err
 func TestVerifC16Segment(t *testing.T) {
 	vfC16Init()
 	defer vfstat.Flush()
+	vfstat.Quiet()
 	const U = "C16.segment"
 	rapid.Check(t, func(rt *rapid.T) {
 		m := NewSegmentUInt64Map[int](4, rapid.SampledFrom([]int{0, 16, 128, 400}).Draw(rt, "initcap"))
@@ -619,6 +621,7 @@ func vfC16AnyModel(m map[uint64]*vfC16Val) map[uint64]any {
 func TestVerifC16Cache(t *testing.T) {
 	vfC16Init()
 	defer vfstat.Flush()
+	vfstat.Quiet()
 	const U = "C16.cache"
 	rapid.Check(t, func(rt *rapid.T) {
 		capacity := rapid.SampledFrom([]int{1, 2, 3, 4, 6, 9, 12, 25}).Draw(rt, "cap")
@@ -795,6 +798,7 @@ func TestVerifC16Cache(t *testing.T) {
 func TestVerifC16Concurrent(t *testing.T) {
 	vfC16Init()
 	defer vfstat.Flush()
+	vfstat.Quiet()
 	const U = "C16.concurrent"
 	rapid.Check(t, func(rt *rapid.T) {
 		capacity := rapid.SampledFrom([]int{2, 4, 8, 16, 64}).Draw(rt, "cap")
@@ -916,6 +920,7 @@ func TestVerifC16Concurrent(t *testing.T) {
 func TestVerifC16NoGlobalLock(t *testing.T) {
 	vfC16Init()
 	defer vfstat.Flush()
+	vfstat.Quiet()
 	const U = "C16.nogloballock"
 	for round := 0; round < 20; round++ {
 		c := New(100000)
